@@ -8,6 +8,12 @@ CLI_NOTE = ("Trusted: the device reference model (one line per (rule,key), own n
             "permanent/ignore_changes only outside %ordered blocks). Sampling, not proof. Junos-style flattening vendors not covered.")
 
 CLAIMED = {
+ "C19": dict(
+    engine="pc",
+    technique="deterministic simulation with fault injection: seeded histories of the real `annet diff` / `annet deploy` for a whole-file device (generator sets, listing orders, reload modes, out-of-band file edits, failed file fetches); uploads observed at the DeployDriver seam and applied to a file-store device model",
+    level_text="Seeded exploration at the driver seam: seeded Entire generators (colliding paths, distinct priorities, outputs, reload strings, is_safe) in drawn listing orders against a PcDevice file store; what DeployDriver.bulk_deploy receives from the real api.adeploy (files, bytes, reload commands) and what api.diff reports are compared with a reference (argmax-priority content, upload iff content differs or forced, reload iff enabled); the device applies the upload and the next run must upload nothing; a failed file fetch must yield an error, not an upload.",
+    design_ref="DESIGN.md 5 (C19)",
+    level_note="Trusted: the reference model of priority selection / upload decision / reload attachment, PcDevice. Two open known findings (newline-only difference, absent vs generated-empty) are listed in known_findings.json and reported as KNOWN-FINDING; any other disagreement fails the check."),
  "C16": dict(
     engine="files",
     technique="deterministic simulation: seeded world states written to files, the real file-patch/file-diff front ends run through the real Parallel on simulated multiprocessing (schedule, delays, retirement, listing order drawn) and are compared host by host with the device front end",
